@@ -196,6 +196,7 @@ class Interp:
         self.hooks = hooks or {}
         self.ghost_env = {}
         self.trace = []
+        self.unexpected = []
 
     # pure: >0 while evaluating contract expressions (build ite / and / or terms instead of forking)
     @property
@@ -762,7 +763,7 @@ class Interp:
             if getattr(fn, "__module__", None) in ("builtins", None) or isinstance(fn, (types.BuiltinFunctionType, type)):
                 # builtins on proxies: try natively (proxies implement the data model); OutOfReach propagates
                 return fn(*args, **kwargs)
-            if getattr(fn, "_pyvc_native_ok", False):
+            if getattr(fn, "_pyvc_native_ok", False) or isinstance(self_arg, Sym):
                 return fn(*args, **kwargs)
             raise OutOfReach(f"call of {name} with symbolic arguments has no contract/model/inline rule")
         return fn(*args, **kwargs)
@@ -1119,6 +1120,14 @@ class Interp:
         else:
             more = self.truth(self.eval(node.test, env))
         if more:
+            from .api import _snapshot as _snap, apply_use
+
+            heads = {}
+            for name in sorted(assigned):
+                try:
+                    heads[name + "_head"] = _snap(env.lookup(name))
+                except NameError:
+                    pass
             if si is not None:
                 self.bind_target(node.target, si.getter(k), env)
             try:
@@ -1129,6 +1138,12 @@ class Interp:
                 return  # leaves the loop with the current state (no else clause)
             genv2 = Env({kname: (k + 1)} if kname else {}, env)
             genv2.vars.update(self.ghost_env)
+            if spec.uses:
+                uenv = Env(dict(heads), genv2)
+                if kname:
+                    uenv.vars[kname] = k
+                for u in spec.uses:
+                    apply_use(self, u, uenv, fname)
             for n_, inv in enumerate(spec.inv):
                 t = self.eval_spec(inv, genv2)
                 p.prove(self._as_term(t), f"{fname}#inv-step.{ordinal}.{n_}", "inv-step")
@@ -1136,6 +1151,14 @@ class Interp:
         # exit: k == n (for) / not cond (while) has been assumed by the branch
         if kname:
             self.ghost_env[kname + "_final"] = k
+        # ghost snapshots of the loop-assigned variables at loop exit: <name>_after<ordinal>
+        from .api import _snapshot
+
+        for name in sorted(assigned):
+            try:
+                self.ghost_env[f"{name}_after{ordinal}"] = _snapshot(env.lookup(name))
+            except NameError:
+                pass
         self.exec_block(node.orelse, env)
 
     def havoc_like(self, cur, name, spec=None):
